@@ -110,6 +110,28 @@ func RandomMessage(r *R, md protoreflect.MessageDescriptor, o *ValOpts, depth in
 		m.Set(md.Fields().ByName("nanos"), protoreflect.ValueOfInt32(int32(nanos)))
 		return m
 	}
+	if md.FullName() == "google.protobuf.Value" {
+		// one of the six kinds, finite numbers only (protojson refuses NaN / ±Inf in a Value), small containers
+		switch k := r.Intn(6); {
+		case k == 0:
+			m.Set(md.Fields().ByName("null_value"), protoreflect.ValueOfEnum(0))
+		case k == 1:
+			m.Set(md.Fields().ByName("number_value"), protoreflect.ValueOfFloat64(Pick(r, []float64{0, 1, -1.5, 1e21, 42})))
+		case k == 2:
+			m.Set(md.Fields().ByName("string_value"), protoreflect.ValueOfString(Pick(r, strPool)))
+		case k == 3:
+			m.Set(md.Fields().ByName("bool_value"), protoreflect.ValueOfBool(r.Bool()))
+		case k == 4 && depth < 2:
+			fd := md.Fields().ByName("struct_value")
+			m.Set(fd, protoreflect.ValueOfMessage(RandomMessage(r, fd.Message(), o, depth+1)))
+		case k == 5 && depth < 2:
+			fd := md.Fields().ByName("list_value")
+			m.Set(fd, protoreflect.ValueOfMessage(RandomMessage(r, fd.Message(), o, depth+1)))
+		default:
+			m.Set(md.Fields().ByName("string_value"), protoreflect.ValueOfString("leaf"))
+		}
+		return m
+	}
 	fds := md.Fields()
 	chosenOneof := map[string]int{}
 	for i := 0; i < fds.Len(); i++ {
